@@ -15,6 +15,7 @@ from ..gen import docs
 ID = "C06"
 BUDGET = {"quick": 1600, "thorough": 40000}
 CASE_TIMEOUT = float(os.environ.get("VERIF_C06_TIMEOUT", "45"))
+ATHERIS_CASE_TIMEOUT = 3500
 SHRINK_BUDGET = 150
 RULE = ("cases: (a) byte strings as .json/.yaml/.yml files, (b) arbitrary JSON values as the whole document, "
         "(c) valid generated documents with 1-4 junk mutations (replace/delete/duplicate a node at any depth; junk = "
@@ -207,8 +208,74 @@ def cyclic_docs():
     return cases
 
 
+ATHERIS_RUNS = int(os.environ.get("VERIF_C06_ATHERIS_RUNS", "40000"))
+
+
+def case_timeout(case):
+    return ATHERIS_CASE_TIMEOUT if isinstance(case, dict) and case.get("kind") == "atheris" else CASE_TIMEOUT
+
+
 def sweep(tier):
-    return cyclic_docs()
+    cases = cyclic_docs()
+    if tier == "thorough":
+        # coverage-guided campaigns (atheris/libFuzzer on the loader + parser): 8 from an empty corpus, 8 from a seeded one
+        for k in range(16):
+            cases.append({"kind": "atheris", "campaign": k, "corpus": "empty" if k < 8 else "seeded", "runs": ATHERIS_RUNS})
+    return cases
+
+
+def _run_atheris(case, ctx):
+    from ..core import load_findings
+
+    d = env.fresh_dir("atheris")
+    corpus = os.path.join(d, "corpus")
+    os.makedirs(corpus)
+    if case.get("corpus") == "seeded":
+        seeds = [b"\x00\x00" + json.dumps({"openapi": "3.0.3", "info": {"title": "t", "version": "1"}, "paths": {}}).encode(),
+                 b"\x00\x01openapi: 3.0.3\ninfo: {title: t, version: '1'}\npaths: {}\ncomponents:\n  schemas:\n    A: {type: object, properties: {x: {type: string, enum: [a, b]}}}\n",
+                 b"\x01\x00\x01\x02\x03\x04\x05\x06\x07\x08", b"\x02\x01\x10\x20\x30\x40\x50\x60\x70\x80\x90"]
+        for i, sd in enumerate(seeds):
+            with open(os.path.join(corpus, f"seed{i}"), "wb") as f:
+                f.write(sd)
+    known = [f["site"] for f in load_findings("C06") if f.get("status", "open") == "open" and isinstance(f.get("site"), dict)]
+    dump = os.path.join(d, "crash-case.json")
+    envv = {**os.environ, "VERIF_C06_KNOWN": json.dumps(known), "VERIF_C06_DUMP": dump}
+    try:
+        r = subprocess.run([sys.executable, "-m", "engine.fuzz_c06", corpus, f"-runs={case.get('runs', ATHERIS_RUNS)}",
+                            f"-seed={1000 + int(case.get('campaign', 0))}", "-max_len=4096", f"-artifact_prefix={d}/", "-timeout=60"],
+                           cwd=env.VERIF, env=envv, capture_output=True, text=True, timeout=3300)
+    except subprocess.TimeoutExpired:
+        ctx.label("atheris:campaign_timeout")
+        ctx.skip("atheris_timeout")
+        env.rm(d)
+        return
+    out = (r.stderr or "") + (r.stdout or "")
+    import re as _re
+
+    m = _re.search(r"Done (\d+) runs", out)
+    n = int(m.group(1)) if m else 0
+    execs = [int(x) for x in _re.findall(r"#(\d+)\s", out)]
+    ctx.evals(max([n] + execs) if (n or execs) else 0)
+    ctx.label("atheris:" + case.get("corpus", "empty"))
+    if "Failed to find function" not in out and "INITED" not in out and "Done" not in out:
+        from ..core import HarnessError
+
+        raise HarnessError("atheris target did not start: " + out[-400:])
+    ctx.nontrivial(["atheris", case.get("campaign"), case.get("corpus")])
+    ctx.sample = {"kind": "atheris", "campaign": case.get("campaign"), "corpus": case.get("corpus"), "runs": max([n] + execs) if (n or execs) else 0,
+                  "corpus_files_at_end": len(os.listdir(corpus))}
+    if os.path.exists(dump):
+        with open(dump, encoding="utf-8") as f:
+            found = json.load(f)
+        ctx.case_override = found
+        run(found, ctx)       # judge the found input with the ordinary oracle (gives clause + site); it is the replay file
+        if not ctx.violations:
+            ctx.violation("api.raises", {"exc": "unreproduced", "via": "atheris"}, out[-600:])
+    elif r.returncode != 0 and "ESCAPED-EXCEPTION" in out:
+        ctx.violation("api.raises", {"exc": "undumped", "via": "atheris"}, out[-600:])
+    elif "ALARM: working on the last Unit" in out or "timeout after" in out:
+        ctx.label("atheris:slow_unit")
+    env.rm(d)
 
 
 def strategy(tier):
@@ -234,6 +301,8 @@ def _source(case) -> tuple[str, object]:
 
 
 def run(case, ctx):
+    if case.get("kind") == "atheris":
+        return _run_atheris(case, ctx)
     src, doc = _source(case)
     meta = case.get("meta", "none")
     res = sut.generate(source=src, meta=meta, via_project=False)
